@@ -162,7 +162,7 @@ func parallelLeg(ctx *kernel.BatchContext) []kernel.Violation {
 	}
 	raceBin := filepath.Join(ctx.BuildDir, fmt.Sprintf("verifsim-race.%d", os.Getpid()))
 	defer os.Remove(raceBin)
-	bargs := []string{"build", "-race"}
+	bargs := []string{"build", "-race", "-tags", "verif"}
 	if mf := os.Getenv("VERIF_MODFILE"); mf != "" {
 		bargs = append(bargs, "-modfile="+mf)
 	}
